@@ -83,6 +83,17 @@ PROPS = {
             S("node", ["--cases", 100], ["--cases", 5000, "--ops", 120]),
         ],
     ),
+    "C02": dict(
+        lean_modules=["Beetswap.Props.C02"],
+        model_scope="composition of two node models with a fault-free transport (Model/Net); " + NODE_SCOPE,
+        assumptions=NODE_ASSUME + ["theorems: two connected nodes, one connection, fault-free transport, healthy blockstores, any user behaviour and any scheduling; multi-hop chains, several connections, evictions and faults are covered by the simulator only",
+                                   "late acknowledgements excluded (known finding F13)",
+                                   "Tier 2 simulator as in C05; fairness of the real executor is assumed"],
+        streams=[
+            S("sim", ["--cases", 200, "--nodes", 4], ["--cases", 15000, "--nodes", 4, "--actions", 60]),
+            S("simfault", ["--cases", 150, "--nodes", 4], ["--cases", 8000, "--nodes", 4, "--actions", 60]),
+        ],
+    ),
     "C03": dict(
         lean_modules=["Beetswap.Props.C03"],
         model_scope=NODE_SCOPE,
@@ -118,6 +129,19 @@ PROPS = {
             S("node", ["--cases", 100], ["--cases", 5000, "--ops", 150]),
             S("simfault", ["--cases", 150], ["--cases", 8000, "--nodes", 4, "--actions", 50]),
             S("simlate", ["--cases", 60], ["--cases", 3000]),
+        ],
+    ),
+    "C14": dict(
+        lean_modules=["Beetswap.Props.C14"],
+        model_scope="src/client.rs::ClientConnectionHandler (Model/ClientHandler, validated against handler traces recorded from real swarms); " + NODE_SCOPE,
+        assumptions=NODE_ASSUME + ["yamux delivers the bytes of a flushed frame in order on its stream (assumed)",
+                                   "the behaviour hands a connection a new wantlist only after the handler reported the outcome of the previous one: holds unless acknowledgements are late (known finding F14)",
+                                   "Tier 2 simulator: libp2p-swarm / yamux / multistream-select over the memory transport under a harness-owned executor and virtual clock"],
+        validate_handler_traces=True,
+        streams=[
+            S("sim", ["--cases", 120], ["--cases", 8000, "--nodes", 4, "--actions", 50]),
+            S("simfault", ["--cases", 150, "--conns", 3], ["--cases", 8000, "--conns", 3, "--nodes", 4, "--actions", 50]),
+            S("simlate", ["--cases", 80], ["--cases", 4000, "--conns", 3]),
         ],
     ),
     "C15": dict(
